@@ -512,5 +512,5 @@ func (st *State) intrinsic(caller *frame, fn *ssa.Function, args []Value) (Value
 	if h := st.eng.Intrinsics[n]; h != nil {
 		return h(st, caller, args), true
 	}
-	panic(unsupported("intrinsic " + n))
+	return nil, false
 }
